@@ -271,6 +271,12 @@ def util_specs():
             Wp, K, Ss = u.sqrt_correct(ca.tril(Rs), H, ca.tril(W))
             return [("Wp", Wp), ("K", K), ("Ss", Ss)]
         S.append(Spec("util.sqrt_correct_%d_%d" % (n, m), [("Rs", (m, m)), ("H", (m, n)), ("W", (n, n))], corr, calls=False))
+    # the same routine with ca.qr replaced by its contract (extra inputs qrQ, qrR; extra output qr_arg), 3 states, 2 measurements
+    def mk():
+        Rs = ca.SX.sym("Rs", ca.Sparsity.lower(2)); H = ca.SX.sym("H", 2, 3); W = ca.SX.sym("W", ca.Sparsity.lower(3))
+        Wp, K, Ss = u.sqrt_correct(Rs, H, W)
+        return ca.Function("sqrt_correct_3_2", [Rs, H, W], [Wp, K, Ss], ["Rs", "H", "W"], ["Wp", "K", "Ss"])
+    S.append(qr_abstracted("util.sqrt_correct_qr_3_2", mk, 5))
     return S
 
 
